@@ -31,6 +31,7 @@ type C17Scenario struct {
 	Tape      []int        `json:"tape"`
 	Real      bool         `json:"real,omitempty"` // engine B: real threads, no controlled schedule
 	Jitter    []int        `json:"jitter,omitempty"`
+	DSYield   bool         `json:"ds_yield,omitempty"` // engine A: datastore accesses are yield points too
 }
 
 func genC17(t *rapid.T) C17Scenario {
@@ -60,6 +61,7 @@ func genC17(t *rapid.T) C17Scenario {
 		s.DeleteK = rapid.IntRange(1, s.Prefill-1).Draw(t, "deletek")
 	}
 	s.Tape = rapid.SliceOfN(rapid.IntRange(0, 9), 0, 300).Draw(t, "tape")
+	s.DSYield = rapid.Bool().Draw(t, "dsyield")
 	return s
 }
 
@@ -116,6 +118,10 @@ func runC17(t *testing.T, s C17Scenario) (res Result) {
 			sc = sched.New()
 			store.VerifSetYield(sc.Yield)
 			defer store.VerifSetYield(nil)
+			if s.DSYield {
+				e.mem.Yield = sc.Yield
+				defer func() { e.mem.Yield = nil }()
+			}
 			yield = sc.Yield
 		} else if len(s.Jitter) > 0 {
 			jit = func(i int) {
